@@ -34,10 +34,13 @@ SHAPES = {
     # one-to-one with cascade_delete declared on the column-holding side: deleting B deletes its A, deleting A only
     # clears B's reference (4th element: ChildCasc)
     'o2o_opt_childcasc': ('o2o', False, False, True),
-    # the same specification constants as o2m_opt / mix_opt, but A has the composite primary key (id, z) with
-    # z = 3 - id (keys (1, 2) and (2, 1)): two-column references, link rows and identity-map keys (5th element)
-    'o2m_opt_cpk': ('o2m', False, False, False, True),
-    'mix_opt_cpk': ('mix', False, False, False, True),
+    # the same specification constants as o2m_opt / mix_opt, but A has a composite primary key: two-column references,
+    # link rows and identity-map keys (5th element). z is the same for every object, so that code comparing only one
+    # of the two columns confuses the objects: 1 = PrimaryKey(z, id) (equal first column), 2 = PrimaryKey(id, z)
+    'o2m_opt_cpk': ('o2m', False, False, False, 1),
+    'mix_opt_cpk': ('mix', False, False, False, 1),
+    'o2m_opt_cpk2': ('o2m', False, False, False, 2),
+    'mix_opt_cpk2': ('mix', False, False, False, 2),
 }
 
 
@@ -97,7 +100,8 @@ def cfg_temporal(shape, max_level, **kw):
 # -------------------------------------------------------------------------------------------------
 class World:
     """A pony Database for one shape on a scratch SQLite file, plus the independent dump connection."""
-    cpk = False        # composite primary key of A (subclasses that build their own entities leave it off)
+    cpk = 0            # composite primary key of A: 0 none, 1 (z, id), 2 (id, z) (subclasses that build their own entities leave it off)
+    Z = 7
 
     def __init__(self, shape, path, strategy='default'):
         self.shape = shape
@@ -117,12 +121,16 @@ class World:
         elif strategy == 'nplus1_none':
             setkw['nplus1_threshold'] = None
 
-        cpk = self.cpk = composite_pk(shape)
-        acol = dict(columns=['a_id', 'a_z']) if cpk else dict(column='a_id')
+        cpk = self.cpk = composite_pk(shape) or 0
+        acol = dict(columns=['a_z', 'a_id']) if cpk == 1 else dict(columns=['a_id', 'a_z']) if cpk == 2 else dict(column='a_id')
 
         class A(db.Entity):
             _table_ = 'ta'
-            if cpk:
+            if cpk == 1:
+                z = Required(int)
+                id = Required(int)
+                PrimaryKey(z, id)
+            elif cpk == 2:
                 id = Required(int)
                 z = Required(int)
                 PrimaryKey(id, z)
@@ -185,7 +193,7 @@ class World:
         for k, row in fmap(state['A']).items():
             if row['ex']:
                 if self.cpk:
-                    con.execute('INSERT INTO ta (id, z, v) VALUES (?, ?, ?)', (k, 3 - k, row['v'] or None))
+                    con.execute('INSERT INTO ta (id, z, v) VALUES (?, ?, ?)', (k, self.Z, row['v'] or None))
                 else:
                     con.execute('INSERT INTO ta (id, v) VALUES (?, ?)', (k, row['v'] or None))
         for k, row in fmap(state['B']).items():
@@ -195,12 +203,12 @@ class World:
                 else:
                     if self.cpk:
                         con.execute('INSERT INTO tb (id, u, a_id, a_z) VALUES (?, ?, ?, ?)',
-                                    (k, row['u'] or None, row['a'] or None, (3 - row['a']) if row['a'] else None))
+                                    (k, row['u'] or None, row['a'] or None, self.Z if row['a'] else None))
                     else:
                         con.execute('INSERT INTO tb (id, u, a_id) VALUES (?, ?, ?)', (k, row['u'] or None, row['a'] or None))
         for a, b in state['L']:
             if self.cpk:
-                con.execute('INSERT INTO tl (a_id, a_z, b_id) VALUES (?, ?, ?)', (a, 3 - a, b))
+                con.execute('INSERT INTO tl (a_id, a_z, b_id) VALUES (?, ?, ?)', (a, self.Z, b))
             else:
                 con.execute('INSERT INTO tl (a_id, b_id) VALUES (?, ?)', (a, b))
         con.execute('COMMIT')
@@ -232,15 +240,15 @@ class World:
         if self.cpk:
             # both components of every stored key must belong together
             for k, z in con.execute('SELECT id, z FROM ta'):
-                if z != 3 - k:
+                if z != self.Z:
                     problems.append('ta row with key (%r, %r)' % (k, z))
             if self.rel != 'm2m':
                 for k, a, z in con.execute('SELECT id, a_id, a_z FROM tb'):
-                    if (a is None) != (z is None) or (a is not None and z != 3 - a):
+                    if (a is None) != (z is None) or (a is not None and z != self.Z):
                         problems.append('tb[%d] refers to (%r, %r)' % (k, a, z))
             if self.links:
                 for a, z, b in con.execute('SELECT a_id, a_z, b_id FROM tl'):
-                    if z != 3 - a:
+                    if z != self.Z:
                         problems.append('link row (%r, %r) - %r' % (a, z, b))
         for a, b in L:
             if a not in A or b not in B:
@@ -312,8 +320,10 @@ class Adapter:
         return self.w.A if e == 'A' else self.w.B
 
     def pk(self, e, k):
-        """The raw primary key of object k (A's key is the pair (k, 3 - k) in the composite-key shapes)."""
-        return (k, 3 - k) if e == 'A' and self.w.cpk else k
+        """The raw primary key of object k (A's key is a pair in the composite-key shapes)."""
+        if e == 'A' and self.w.cpk:
+            return (self.w.Z, k) if self.w.cpk == 1 else (k, self.w.Z)
+        return k
 
     def obj(self, e, k):
         w = self.w
@@ -449,7 +459,7 @@ class Adapter:
         if e == 'A':
             kw = {'id': k}
             if w.cpk:
-                kw['z'] = 3 - k
+                kw['z'] = w.Z
             if ev['x'] or self.rng.randrange(2):
                 kw['v'] = ev['x'] or None
             o = w.A(**kw)
